@@ -43,7 +43,8 @@ ASSUMPTIONS = ["mono recordings, sample widths 1, 2, 4, frame rate a positive in
                "where the exact product t*rate lies within one binary64 rounding error (|x|*2^-52) of a half-sample point, or exactly "
                "on it, the oracle accepts either neighbouring sample index ('the sample indices nearest to the requested times')",
                "times are arbitrary (negative, beyond the end): 'the sample indices nearest to the requested times' is read as the "
-               "nearest of the recording's sample boundaries 0..n; start <= end for two-time operations; the insert-then-delete "
+               "nearest of the recording's sample boundaries 0..n; a two-time operation with start > end must raise ArgumentError and leave "
+               "the recording unchanged (the bare function readFramesAtTime, which has no such check, is compared with the model only); the insert-then-delete "
                "clause is judged for insertion times in [0, duration]"]
 
 WIDTHS = [1, 2, 4]
@@ -249,26 +250,22 @@ def impl(c):
     if op == "edits":
         def run():
             wv = mkwav(c)
-            states, untouched = [], True
+            states, untouched, err, after = [], True, None, None
             for e in c["edits"]:
                 k = e[0]
-                if k == "ins":
-                    wv.insert(e[1], bytes.fromhex(e[2]))
-                elif k == "del":
-                    wv.deleteSegment(e[1], e[2])
-                elif k == "rep":
-                    wv.replaceSegment(e[1], e[2], bytes.fromhex(e[3]))
-                elif k == "cat":
-                    wv.concatenate(bytes.fromhex(e[1]))
-                elif k == "sub":
-                    before = bytes(wv.frames)
-                    sub = wv.getSubwav(e[1], e[2])
-                    untouched = untouched and wv.frames == before and (sub.sampleWidth, sub.frameRate) == (wv.sampleWidth, wv.frameRate)
+                before_step = bytes(wv.frames)
+                try:
+                    step_edit(wv, e)
+                except Exception as ex:      # the history stops at the first edit that raises
+                    err = type(ex).__name__
+                    after = wv.frames.hex()
+                    break
+                if k == "sub":
+                    sub = step_edit.last
+                    untouched = untouched and wv.frames == before_step and (sub.sampleWidth, sub.frameRate) == (wv.sampleWidth, wv.frameRate)
                     wv = sub
-                else:
-                    raise KeyError(k)
                 states.append(wv.frames.hex())
-            return {"states": states, "untouched": untouched}
+            return {"states": states, "untouched": untouched, "err": err, "after": after}
         return T.call(run)
     if op == "invdel":
         def run():
@@ -315,6 +312,23 @@ def impl(c):
     raise KeyError(op)
 
 
+def step_edit(wv, e):
+    """one edit of a history on the real object; getSubwav's result is left in step_edit.last"""
+    k = e[0]
+    if k == "ins":
+        wv.insert(e[1], bytes.fromhex(e[2]))
+    elif k == "del":
+        wv.deleteSegment(e[1], e[2])
+    elif k == "rep":
+        wv.replaceSegment(e[1], e[2], bytes.fromhex(e[3]))
+    elif k == "cat":
+        wv.concatenate(bytes.fromhex(e[1]))
+    elif k == "sub":
+        step_edit.last = wv.getSubwav(e[1], e[2])
+    else:
+        raise KeyError(k)
+
+
 def render(c, r, enc):
     op = c["op"]
     if not has_model(c):
@@ -334,7 +348,7 @@ def render(c, r, enc):
         from proto import f2bits
         return f"ok {len(c['hex']) // 2} {c['rate'] * c['w']} {f2bits(v)}"
     if op == "edits":
-        return "ok " + " ".join(hx(h) for h in v["states"])
+        return "ok " + " ".join([hx(h) for h in v["states"]] + (["err", v["err"]] if v["err"] else []))
     if op == "invdel":
         return "ok " + " ".join(hx(h) for h in v)
     if op == "saveopen":
@@ -362,7 +376,7 @@ def expect_edit(S, e, w, rate):
         G = decode(bytes.fromhex(e[2]), w)
         return None if G is None else [S[:i] + G + S[i:] for i in nearest_in(e[1], rate, n)]
     if Fraction(e[1]) > Fraction(e[2]):
-        return None
+        return "reject"
     pairs = [(i, j) for i in nearest_in(e[1], rate, n) for j in nearest_in(e[2], rate, n) if i <= j]
     if k == "del":
         return [S[:i] + S[j:] for i, j in pairs]
@@ -448,6 +462,8 @@ def oracle(c, r):
     if op in ("getframes", "getsamples"):
         t0, t1 = c["t0"], c["t1"]
         if not Fraction(t0) <= Fraction(t1):
+            if tuple(r[:2]) != ("err", "ArgumentError"):
+                return Failure(dict(sig, clause="reversed-rejected"), f"{op}({t0},{t1}): a time range that ends before it starts gave {r[0]} {str(r[1])[:40]}, not ArgumentError")
             return None
         if r[0] == "err":
             return Failure(dict(sig, clause="no-error", exc=r[1]), f"{op}({t0},{t1}) raised {r[1]} (width {w}, rate {rate})")
@@ -465,15 +481,30 @@ def oracle(c, r):
         return None
     if op == "edits":
         if r[0] == "err":
-            return Failure(dict(sig, clause="no-error", exc=r[1]), f"edit history raised {r[1]}")
+            return Failure(dict(sig, clause="no-error", exc=r[1]), f"edit history: harness-level error {r[1]}")
         if not r[1]["untouched"]:
             return Failure(dict(sig, clause="getSubwav-leaves-source"), "getSubwav changed its receiver or the parameters")
         cur = S
-        for step, (e, h) in enumerate(zip(c["edits"], r[1]["states"])):
+        v = r[1]
+        for step, e in enumerate(c["edits"]):
             if cur is None:
                 return None
-            got = decode(bytes.fromhex(h), w)
             ok = expect_edit(cur, e, w, rate)
+            if step >= len(v["states"]):
+                # the history stopped here with an exception: only a reversed time range may do that, with an ArgumentError,
+                # and the recording must be what it was before the call
+                if ok != "reject":
+                    return Failure(dict(sig, edit=e[0], clause="no-error", exc=v["err"]), f"step {step} {e[:3] if e[0] != 'cat' else e[0]} raised {v['err']}")
+                if v["err"] != "ArgumentError":
+                    return Failure(dict(sig, edit=e[0], clause="reversed-rejected", exc=v["err"]), f"step {step} {e[:3]}: reversed range raised {v['err']}, not ArgumentError")
+                if decode(bytes.fromhex(v["after"]), w) != cur:
+                    return Failure(dict(sig, edit=e[0], clause="rejected-unchanged"), f"step {step} {e[:3]}: the rejected call changed the recording")
+                return None
+            h = v["states"][step]
+            got = decode(bytes.fromhex(h), w)
+            if ok == "reject":
+                return Failure(dict(sig, edit=e[0], clause="reversed-rejected"),
+                               f"step {step} {e[:3]} at rate {rate}: a time range that ends before it starts was accepted ({len(cur)} -> {len(got) if got is not None else '?'} samples)")
             if ok is not None:
                 if got is None:
                     return Failure(dict(sig, edit=e[0], clause="whole-samples"), f"step {step} {e[0]}: ragged byte string (width {w})")
@@ -518,8 +549,16 @@ def oracle(c, r):
             return None
         return oracle_range(c, decode(bytes.fromhex(r[1]), w), sig)
     if op == "query":
+        t0 = 0.0 if c["t0"] is None else c["t0"]
+        t1 = Fraction(n, rate) if c["t1"] is None else Fraction(c["t1"])
+        if Fraction(t0) > t1 and c["t1"] is not None:
+            # (with endTime=None the end is the float duration n/rate, which the oracle does not second-guess)
+            if tuple(r[:2]) != ("err", "ArgumentError"):
+                return Failure(dict(sig, clause="reversed-rejected"), f"QueryWav.getSamples({c['t0']},{c['t1']}): a reversed range gave {r[0]}, not ArgumentError")
+            return None
         if r[0] == "err":
-            t0 = 0.0 if c["t0"] is None else c["t0"]
+            if c["t1"] is None and Fraction(t0) > t1 - Fraction(1, 2 ** 40) and r[1] == "ArgumentError":
+                return None
             if c["t1"] is None or Fraction(t0) <= Fraction(c["t1"]):
                 return Failure(dict(sig, clause="no-error", exc=r[1]), f"QueryWav.getSamples({c['t0']},{c['t1']}) raised {r[1]}")
             return None
@@ -549,7 +588,14 @@ def tags(c, r):
         if op in ("readat", "query"):
             for t in (c["t0"], c["t1"]):
                 out.append("time:" + ("none" if t is None else kind_of(t, c["rate"])))
+    if op in ("getframes", "getsamples", "readat", "query") and c.get("t0") is not None and c.get("t1") is not None \
+            and Fraction(c["t0"]) > Fraction(c["t1"]):
+        out.append("window:reversed")
+    if any(isinstance(t, float) and t < 0 for t in times_of(c) + [c.get("t0"), c.get("t1")]):
+        out.append("time:negative")
     if op == "edits":
+        if r[0] == "ok" and r[1].get("err"):
+            out.append("history:stopped:" + r[1]["err"])
         out.append(f"history:{len(c['edits'])}")
         out += ["edit:" + e[0] for e in c["edits"]]
     if op == "invdel" and r[0] == "ok":
@@ -620,7 +666,19 @@ def corpus():
         yield {"op": "readat", "w": w, "rate": 8, "hex": ramp(16, w), "t0": -0.5, "t1": 0.5}
         yield {"op": "index", "w": w, "rate": 8, "hex": ramp(16, w), "t": -0.5}
         yield {"op": "index", "w": w, "rate": 8, "hex": ramp(16, w), "t": 2.5}
-    # a position beyond the file reads nothing (was wave.Error); a reversed window is empty
+    # C16-3 (fixed, 0a07868): a time range that ends before it starts.  deleteSegment(0.5, 0.25) returned 18 samples for 16
+    # (frames[:i] + frames[j:] with i > j duplicates the samples in between), replaceSegment likewise; getSamples(0.5, -0.25)
+    # returned 10 samples from Wav and () from QueryWav.  All raise ArgumentError now, before anything is changed
+    for w in WIDTHS:
+        yield {"op": "edits", "w": w, "rate": 8, "hex": ramp(16, w), "edits": [["del", 0.5, 0.25]]}
+        yield {"op": "edits", "w": w, "rate": 8, "hex": ramp(16, w), "edits": [["del", 0.25, 0.5], ["rep", 0.5, 0.25, ramp(1, w, 77)], ["cat", ramp(1, w, 9)]]}
+        yield {"op": "edits", "w": w, "rate": 8, "hex": ramp(16, w), "edits": [["sub", 1.5, 0.25]]}
+        yield {"op": "getsamples", "w": w, "rate": 8, "hex": ramp(16, w), "t0": 0.5, "t1": -0.25}
+        yield {"op": "getframes", "w": w, "rate": 8, "hex": ramp(16, w), "t0": 0.5, "t1": 0.25}
+        yield {"op": "query", "w": w, "rate": 8, "hex": ramp(16, w), "t0": 0.5, "t1": -0.25}
+        yield {"op": "query", "w": w, "rate": 8, "hex": ramp(16, w), "t0": 0.5, "t1": 0.25}
+        yield {"op": "query", "w": w, "rate": 8, "hex": ramp(16, w), "t0": 5.0, "t1": None}
+    # a position beyond the file reads nothing (was wave.Error); the bare readFramesAtTime reads nothing for a reversed window
     yield {"op": "readat", "w": 1, "rate": 8, "hex": ramp(9, 1), "t0": 2.0, "t1": 3.0}
     yield {"op": "readat", "w": 1, "rate": 8, "hex": ramp(9, 1), "t0": 0.5, "t1": 0.25}
     yield {"op": "query", "w": 2, "rate": 8000, "hex": ramp(40, 2), "t0": None, "t1": None}
